@@ -357,7 +357,7 @@ var urnTemplates = []string{
 }
 
 var opts = scen.GenOpts{
-	World: world.Opts{MaxFlows: 2, MaxNodes: 4, Languages: []string{"fra"}, Templates: []string{"@contact.urn", "@(format_urn(urns.tel))", "@contact", "@input.urn", "@(json(contact))", "@urns.tel", "@parent.contact.urn", "@(urn_parts(contact.urn).path)", "@contact.urns", "Hi @contact"},
+	World: world.Opts{MaxFlows: 2, MaxNodes: 4, WaitHeavy: true, Languages: []string{"fra"}, Templates: []string{"@contact.urn", "@(format_urn(urns.tel))", "@contact", "@input.urn", "@(json(contact))", "@urns.tel", "@parent.contact.urn", "@(urn_parts(contact.urn).path)", "@contact.urns", "Hi @contact"},
 		Actions: []string{"send_msg", "set_run_result", "set_contact_name", "set_contact_field", "enter_flow", "send_email", "call_webhook", "set_contact_channel"}}, // no add_contact_urn: whether a literal URN is new depends on the secret by design
 	TriggerTypes: []string{"manual", "msg", "flow_action", "msg"},
 	Restarts:     true,
